@@ -6,6 +6,7 @@ import (
 	"path/filepath"
 	"strings"
 	"sync"
+	"sync/atomic"
 	"time"
 
 	"github.com/akrylysov/pogreb"
@@ -516,10 +517,15 @@ func c13FailedOpens(c *core.Ctx) {
 // complements the schedule exploration on file systems whose lock acquisition has no internal yield points.
 func c13ConcurrentOpens(c *core.Ctx, fsk core.FSKind) {
 	cfg := core.Config{}
-	for round := 0; round < 60; round++ {
+	rounds := 60
+	if fsk == core.FSMem || fsk == core.FSCrash {
+		rounds = 1500 // cheap there, and there is no schedule exploration inside their lock acquisition
+	}
+	for round := 0; round < rounds; round++ {
 		env := core.NewEnv(fsk)
 		n := 4 + round%5
 		var wg sync.WaitGroup
+		var ready atomic.Int32
 		start := make(chan struct{})
 		dbs := make([]*pogreb.DB, n)
 		errs := make([]error, n)
@@ -528,6 +534,9 @@ func c13ConcurrentOpens(c *core.Ctx, fsk core.FSKind) {
 			go func(i int) {
 				defer wg.Done()
 				<-start
+				ready.Add(1)
+				for ready.Load() < int32(n) { // spin barrier: all openers start within nanoseconds of each other
+				}
 				dbs[i], errs[i] = env.Open(cfg)
 			}(i)
 		}
